@@ -101,6 +101,19 @@ MISC = [('Number("-00")', "-0"), ('+"-00"', "-0"), ('"-00" * 1', "-0"), ('Number
         ('Number("-01")', "-1"), ('Math.min("-00")', "-0"), ('-"-00"', "0"), ('1 / Number("-00")', "-Infinity"),
         ('Math.sign("0")', "0"), ('Math.sign("-0")', "-0"), ('Math.sign("abc")', "NaN"), ("Math.sign(null)", "0"), ("Math.sign(undefined)", "NaN"), ("Math.sign(false)", "0"),
         ('Math.sign({valueOf: function () { return -0 }})', "-0"), ('Math.sign("")', "0"), ("Math.sign([])", "0"), ('Math.sign("-3")', "-1"),
+        # an operand is converted ONCE by every unary / update / arithmetic operator
+        ('(function () { var c = 0, o = {valueOf: function () { c++; return c + 0.5 }}; var r = -o; return r * 10 + c })()', "-14"),
+        ('(function () { var c = 0, o = {valueOf: function () { c++; return c + 0.5 }}; var r = +o; return r * 10 + c })()', "16"),
+        ('(function () { var c = 0, o = {valueOf: function () { c++; return c + 0.5 }}; var r = ~o; return r * 10 + c })()', "-19"),
+        ('(function () { var c = 0, o = {valueOf: function () { c++; return c + 0.5 }}; var r = o; r++; return r * 10 + c })()', "26"),
+        ('(function () { var c = 0, o = {valueOf: function () { c++; return c + 0.5 }}; var r = o * 2; return r * 10 + c })()', "31"),
+        ('(function () { var c = 0, o = {valueOf: function () { c++; return String(c + 0.5) }}; var r = -o; return r * 10 + c })()', "-14"),
+        # searching a float typed array compares NUMBERS (SameValueZero / strict equality), not bit patterns
+        ("new Float64Array([-0]).includes(0)", "true"), ("new Float64Array([-0]).indexOf(0)", "0"), ("new Float64Array([1, -0]).lastIndexOf(0)", "1"), ("new Float64Array([0]).includes(-0)", "true"),
+        ("new Float32Array([1.1]).includes(1.1)", "false"), ("new Float32Array([1.1]).indexOf(1.1)", "-1"), ("new Float32Array([1.1]).includes(Math.fround(1.1))", "true"),
+        ("new Float32Array([16777216]).indexOf(16777217)", "-1"), ("new Float32Array([16777216]).lastIndexOf(16777217)", "-1"), ("new Float32Array([-0]).includes(0)", "true"),
+        ("new Float64Array(new BigUint64Array([0x7ff8000000000001n]).buffer).includes(NaN)", "true"), ("new Float64Array([NaN]).indexOf(NaN)", "-1"),
+        ("new Int8Array([1, 2]).includes(1.5)", "false"), ("new Int8Array([1, 2]).includes(258)", "false"), ("new Uint8Array([0]).includes(-0)", "true"),
         ('[1, 2, 3].slice(0, "1e30").length', "3"), ('"abc".substring(0, "1e30")', '"abc"'), ('[1, 2, 3].slice("-1e30").length', "3"), ('"abc".slice("-1e400")', '"abc"'),
         ('[1, 2, 3].indexOf(3, "-1e30")', "2"), ('"abc".charAt("1e30")', '""'), ('[1, 2, 3].at("1e30")', "undefined"), ('"abcabc".lastIndexOf("c", "1e30")', "5")]
 
